@@ -1,4 +1,667 @@
-//! c01 check (under construction)
-pub fn run(args: &vpc::Args) -> ! {
-    vpc::machinery_failure(&format!("property {} not implemented yet", args.prop))
+//! C01 - every path the SDK offers is forwardable end to end, and so is its reverse.
+//!
+//! For every topology of the R-topo enumerator (+ curated shapes): the REAL pocketscion
+//! `ScionTopology` (real trust material, the per-AS forwarding keys of the `Topo`), the real
+//! `SegmentRegistry::from_topology`, and for EVERY ordered AS pair the real path lookup
+//! (`registry.paths(src, dst, valid_after, topo)` = real list-segment plan -> real
+//! `to_path_segment`/`update_macs` -> real `combinator::combine`; for other hop-expiry units the same
+//! three real functions are called with that unit). EVERY returned path is wrapped into a real
+//! `ScionUdpPacket` and walked: each AS step is judged by R-router (`vpc::refrouter`) with that AS's
+//! own key; the delivered packet's path is turned into a `ScionPath`, reversed with the real
+//! `ScionPath::try_reverse`, rewrapped and walked back. The real simulator walks the same packets;
+//! its verdicts are recorded, a disagreement on a path R-router accepts belongs to C13.
+//!
+//! Oracle: R-router delivers at dst (reply: at src); the traversed (AS, interface) pairs equal the
+//! path's metadata interface list in order; step count = number of ASes on the path.
+//! Completeness: if R-combine over the R-seg segments that the real registry also holds yields a
+//! route for (src, dst), the lookup returns at least one path.
+use std::{
+    collections::{BTreeMap, BTreeSet},
+    sync::Mutex,
+};
+
+use pocketscion::network::scion::{
+    routing::{ScionNetworkTime, spec::SpecRoutingLogic},
+    segment::registry::SegmentRegistry,
+    simulator::ScionNetworkSim,
+    topology::ScionTopology,
+};
+use rayon::prelude::*;
+use sciparse::{
+    address::socket_addr::ScionSocketAddr,
+    core::{encode::WireEncode, view::View},
+    dataplane_path::{standard::view::StandardPathView, view::{ScionDpPathView, ScionDpPathViewExt}},
+    identifier::isd::Isd,
+    packet::{model::ScionUdpPacket, view::ScionRawPacketView},
+    path::{ScionPath, combinator::combine},
+    segment::{Entry, SignedPathSegment},
+};
+use vpc::{
+    Value, json, refcombine, refmac,
+    refrouter::{self, RejectClass, Verdict},
+    refseg,
+    reftopo::{AsIdx, Topo},
+    reftopo_enum,
+    refwire::{RHeader, RPath},
+};
+
+use crate::bridge;
+
+/// Smallest witness per class (same idea as in c13).
+#[derive(Default)]
+struct Findings(Mutex<BTreeMap<String, (usize, u64, String, Value)>>);
+impl Findings {
+    fn report(&self, class: &str, metric: usize, what: String, witness: &dyn Fn() -> Value) {
+        let mut m = self.0.lock().unwrap();
+        match m.get_mut(class) {
+            Some(e) => {
+                e.1 += 1;
+                if metric < e.0 {
+                    *e = (metric, e.1, what, witness());
+                }
+            }
+            None => {
+                m.insert(class.to_string(), (metric, 1, what, witness()));
+            }
+        }
+    }
+    fn flush(&self, run: &vpc::Run) {
+        for (class, (_, n, what, w)) in self.0.lock().unwrap().iter() {
+            run.violation(class, &format!("{what} [{n} occurrences in this run; smallest witness kept]"), w.clone());
+        }
+    }
 }
+
+#[derive(Default)]
+struct Stats {
+    outcomes: BTreeMap<String, u64>,
+    states: u64,
+    transitions: u64,
+    walks: u64,
+    paths: u64,
+    pairs: u64,
+}
+impl Stats {
+    fn bump(&mut self, k: &str) {
+        *self.outcomes.entry(k.to_string()).or_default() += 1;
+    }
+    fn merge(&mut self, o: Stats) {
+        for (k, v) in o.outcomes {
+            *self.outcomes.entry(k).or_default() += v;
+        }
+        self.states += o.states;
+        self.transitions += o.transitions;
+        self.walks += o.walks;
+        self.paths += o.paths;
+        self.pairs += o.pairs;
+    }
+}
+
+fn ia_str(t: &Topo, a: AsIdx) -> String {
+    let n = &t.ases[a];
+    format!("{}-{:x}:{:x}:{:x}", n.isd, (n.asn >> 32) & 0xffff, (n.asn >> 16) & 0xffff, n.asn & 0xffff)
+}
+
+/// The lookup pipeline of `SegmentRegistry::paths` with a chosen hop-expiry unit (same three real
+/// functions, `paths()` itself hard-codes 255).
+fn lookup(reg: &SegmentRegistry, real: &ScionTopology, t: &Topo, src: AsIdx, dst: AsIdx, valid_after: chrono::DateTime<chrono::Utc>, exp: u8) -> Result<(Vec<ScionPath>, Vec<SignedPathSegment>), String> {
+    let (s, d) = (bridge::ia_of(t, src), bridge::ia_of(t, dst));
+    let segs = reg.endhost_list_segments(s, s, d).map_err(|e| format!("{e:#}"))?;
+    let ps = segs.into_path_segments(real, valid_after, 0, exp).map_err(|e| format!("{e:#}"))?;
+    let cores: Vec<SignedPathSegment> = ps.iter_cores().cloned().collect();
+    let non_cores: Vec<SignedPathSegment> = ps.iter_non_cores().cloned().collect();
+    let all: Vec<SignedPathSegment> = cores.iter().chain(non_cores.iter()).cloned().collect();
+    Ok((combine(s, d, cores, non_cores), all))
+}
+
+struct PathInfo {
+    /// metadata interface list as (AS index, interface id)
+    ifs: Vec<(AsIdx, u16)>,
+    bytes: Vec<u8>,
+}
+
+fn wrap(t: &Topo, p: &ScionPath, src: AsIdx, dst: AsIdx) -> Result<Vec<u8>, String> {
+    let sa: ScionSocketAddr = format!("[{},10.0.0.1]:40001", ia_str(t, src)).parse().map_err(|e| format!("src addr: {e:?}"))?;
+    let da: ScionSocketAddr = format!("[{},10.0.0.2]:40002", ia_str(t, dst)).parse().map_err(|e| format!("dst addr: {e:?}"))?;
+    ScionUdpPacket::new(sa, da, p.dp_path().to_model(), b"c01".to_vec()).try_encode_to_vec().map_err(|e| format!("encode: {e:?}"))
+}
+
+fn meta_ifs(t: &Topo, p: &ScionPath) -> Option<Vec<(AsIdx, u16)>> {
+    let m = p.metadata()?;
+    let l = m.interfaces.as_ref()?;
+    let mut v = vec![];
+    for i in l {
+        v.push((t.as_by_ia(i.interface.isd_asn.0)?, i.interface.id));
+    }
+    Some(v)
+}
+
+/// Outcome of one R-router walk against the oracle.
+struct Judged {
+    ok: bool,
+    /// class of the failure
+    fail: Option<String>,
+    detail: String,
+    delivered_bytes: Option<Vec<u8>>,
+    steps: usize,
+    saw_xover_noncore: bool,
+    saw_peering: bool,
+    segments: usize,
+    trace: Vec<String>,
+}
+
+fn judge(t: &Topo, start: AsIdx, want_dst: AsIdx, bytes: &[u8], now: u32, ifs: &[(AsIdx, u16)], stats: &mut Stats) -> Judged {
+    let visits = refrouter::walk(t, start, 0, bytes, now, &|_| false, 70);
+    stats.walks += 1;
+    stats.transitions += visits.len() as u64;
+    stats.states += visits.len() as u64;
+    let mut j = Judged { ok: false, fail: None, detail: String::new(), delivered_bytes: None, steps: visits.len(), saw_xover_noncore: false, saw_peering: false, segments: 0, trace: vec![] };
+    if let Ok((h, _)) = RHeader::parse(bytes) {
+        if let RPath::Std(p) = &h.path {
+            j.segments = p.num_inf();
+        }
+    }
+    let mut travelled: Vec<(AsIdx, u16)> = vec![];
+    for v in &visits {
+        j.saw_peering |= v.step.peering;
+        if v.step.xover && !t.ases[v.at].core {
+            j.saw_xover_noncore = true;
+        }
+        if v.ingress != 0 {
+            travelled.push((v.at, v.ingress));
+        }
+        if let Some(e) = v.egress {
+            travelled.push((v.at, e));
+        }
+        j.trace.push(format!("AS{}({}) in {} -> {}", v.at, ia_str(t, v.at), v.ingress, v.step.verdict.class_name()));
+    }
+    let last = visits.last().expect("at least one visit");
+    match &last.step.verdict {
+        Verdict::Delivered { at, packet } if *at == want_dst => {
+            j.delivered_bytes = Some(packet.clone());
+            if travelled != ifs {
+                j.fail = Some("delivered-over-other-interfaces-than-metadata".into());
+                j.detail = format!("travelled {travelled:?}, metadata lists {ifs:?}");
+            } else if visits.len() != ifs.len() / 2 + 1 {
+                j.fail = Some("step-count-differs-from-as-count".into());
+                j.detail = format!("{} steps, {} ASes on the path", visits.len(), ifs.len() / 2 + 1);
+            } else {
+                j.ok = true;
+            }
+        }
+        Verdict::Delivered { at, .. } => {
+            j.fail = Some("delivered-at-wrong-as".into());
+            j.detail = format!("delivered at AS{at}, destination is AS{want_dst}");
+        }
+        v => {
+            let where_ = if last.step.peering {
+                "peering-hop"
+            } else if last.step.xover {
+                "cross-over"
+            } else {
+                "plain-hop"
+            };
+            j.fail = Some(format!("not-forwardable:{}@{}", v.class_name(), where_));
+            j.detail = format!("R-router at AS{} ({}) ingress {}: {:?} events={:?}", last.at, ia_str(t, last.at), last.ingress, short(v), last.step.events);
+        }
+    }
+    j
+}
+fn short(v: &Verdict) -> String {
+    match v {
+        Verdict::Forward { egress_if, next_as, next_if, .. } => format!("Forward(egress {egress_if} -> AS{next_as}#{next_if})"),
+        Verdict::Delivered { at, .. } => format!("Delivered(AS{at})"),
+        o => format!("{o:?}"),
+    }
+}
+
+/// The real simulator's complete traversal of the same packet: (delivered at dst?, description).
+fn sim_walk(real: &ScionTopology, t: &Topo, src: AsIdx, dst: AsIdx, bytes: &[u8], now: u32) -> (bool, String) {
+    let mut b = bytes.to_vec();
+    let r = vpc::catch(|| {
+        let (view, _) = match ScionRawPacketView::try_from_mut_slice(&mut b) {
+            Ok(v) => v,
+            Err(e) => return (false, format!("parse-reject {e:?}")),
+        };
+        match ScionNetworkSim::simulate_traversal::<SpecRoutingLogic>(real, view, ScionNetworkTime::from_timestamp_secs(now), bridge::ia_of(t, src), 0, false) {
+            Ok(o) => {
+                let ok = o.at_as == bridge::ia_of(t, dst) && matches!(o.action, pocketscion::network::scion::routing::LocalAsRoutingAction::ForwardLocal);
+                (ok, format!("{} at {}", action_name(&o.action), o.at_as))
+            }
+            Err(e) => (false, format!("error {e:#}")),
+        }
+    });
+    r.unwrap_or_else(|p| (false, format!("panic {p}")))
+}
+fn action_name(a: &pocketscion::network::scion::routing::LocalAsRoutingAction) -> String {
+    use pocketscion::network::scion::routing::LocalAsRoutingAction as L;
+    match a {
+        L::ForwardLocal => "deliver".into(),
+        L::SendSCMPErrorResponse(e) => match e {
+            sciparse::payload::scmp::model::ScmpErrorMessage::ParameterProblem(p) => format!("scmp-parameter-problem({:?})", p.code),
+            sciparse::payload::scmp::model::ScmpErrorMessage::ExternalInterfaceDown(_) => "scmp-external-interface-down".into(),
+            _ => "scmp-other".into(),
+        },
+        L::IngressSCMPHandleRequest { .. } | L::EgressSCMPHandleRequest { .. } => "router-alert".into(),
+        L::ForwardExternal { .. } => "forward-external".into(),
+    }
+}
+
+/// Does some peer entry of the real segments carry a MAC chained from beta_i (its own AS entry's
+/// accumulator) instead of beta_{i+1} as the specification says? Returns (spec-conform, beta_i-chained, neither).
+fn peer_mac_chaining(t: &Topo, segs: &[SignedPathSegment]) -> (u64, u64, u64) {
+    let (mut ok, mut from_i, mut neither) = (0, 0, 0);
+    for s in segs {
+        let ts = s.info().timestamp;
+        let mut beta = s.info().segment_id;
+        for e in &s.as_entries {
+            let e = e.get();
+            let Some(a) = t.as_by_ia(e.local.0) else { continue };
+            let key = t.ases[a].key;
+            let hf = &e.hop_entry.hop_field;
+            let mac: [u8; 6] = *hf.mac.as_bytes();
+            let beta_next = refmac::beta_step(beta, &mac);
+            for p in &e.peer_entries {
+                let pm: [u8; 6] = *p.hop_field.mac.as_bytes();
+                let with = |b: u16| refmac::hop_mac(&key, b, ts, p.hop_field.expiration_units, p.hop_field.cons_ingress, p.hop_field.cons_egress) == pm;
+                if with(beta_next) {
+                    ok += 1;
+                } else if with(beta) {
+                    from_i += 1;
+                } else {
+                    neither += 1;
+                }
+            }
+            beta = beta_next;
+        }
+    }
+    (ok, from_i, neither)
+}
+
+/// (AS, if) walk of a registry link segment from its Display form `A#x -> B#y;B#z -> C#w;`.
+fn registry_walks(reg: &SegmentRegistry, t: &Topo) -> BTreeSet<Vec<(u64, u16, u64, u16)>> {
+    let mut out = BTreeSet::new();
+    let parse_if = |s: &str| -> Option<(u64, u16)> {
+        let (ia, ifid) = s.trim().split_once('#')?;
+        let ia: sciparse::identifier::isd_asn::IsdAsn = ia.parse().ok()?;
+        Some((ia.0, ifid.parse().ok()?))
+    };
+    let mut add = |s: String| {
+        let mut w = vec![];
+        for l in s.split(';') {
+            if l.trim().is_empty() {
+                continue;
+            }
+            if let Some((a, b)) = l.split_once("->") {
+                if let (Some(a), Some(b)) = (parse_if(a), parse_if(b)) {
+                    w.push((a.0, a.1, b.0, b.1));
+                }
+            }
+        }
+        out.insert(w);
+    };
+    for seg in reg.core_segments().iter_segments_filtered(|_| true) {
+        add(seg.to_string());
+    }
+    let isds: BTreeSet<u16> = t.ases.iter().map(|a| a.isd).collect();
+    for isd in isds {
+        if let Some(store) = reg.isd_segments(&Isd(isd)) {
+            for seg in store.iter_segments_filtered(|_| true) {
+                add(seg.to_string());
+            }
+        }
+    }
+    out
+}
+fn rseg_walk(t: &Topo, s: &refseg::RSegment) -> Vec<(u64, u16, u64, u16)> {
+    let mut w = vec![];
+    for k in 0..s.entries.len() - 1 {
+        let (a, b) = (&s.entries[k], &s.entries[k + 1]);
+        w.push((t.ases[a.as_idx].ia(), a.cons_egress, t.ases[b.as_idx].ia(), b.cons_ingress));
+    }
+    w
+}
+
+struct Cfg {
+    /// (valid_after offset in seconds before now, hop expiry units)
+    variants: Vec<(i64, u8)>,
+    /// walk clocks: false = timestamp only, true = {timestamp, expiry-1}
+    two_clocks: bool,
+}
+
+const NOW: i64 = 1_700_000_000;
+
+fn check_topology(run: &vpc::Run, findings: &Findings, t: &Topo, cfg: &Cfg) -> Stats {
+    let mut st = Stats::default();
+    let real = match vpc::catch(|| bridge::build_topology(t)) {
+        Ok(Ok(r)) => r,
+        Ok(Err(e)) => {
+            findings.report("harness:pocketscion-rejects-reference-topology", t.ases.len(), format!("ScionTopologyBuilder refused topology {}: {e}", t.name), &|| json!({"topology": bridge::topo_to_json(t)}));
+            return st;
+        }
+        Err(p) => {
+            findings.report(&format!("panic@{}", vpc::last_panic_location()), t.ases.len(), format!("building topology {} panicked: {p}", t.name), &|| json!({"topology": bridge::topo_to_json(t)}));
+            return st;
+        }
+    };
+    let reg = match vpc::catch(|| SegmentRegistry::from_topology(&real)) {
+        Ok(r) => r,
+        Err(p) => {
+            findings.report(&format!("panic@{}", vpc::last_panic_location()), t.ases.len(), format!("SegmentRegistry::from_topology panicked on {}: {p}", t.name), &|| json!({"topology": bridge::topo_to_json(t)}));
+            return st;
+        }
+    };
+    // reference segments restricted to those the real registry holds too
+    let rsegs = refseg::beacon(t, NOW as u32);
+    let held = registry_walks(&reg, t);
+    let in_reg = |s: &refseg::RSegment| held.contains(&rseg_walk(t, s));
+    let n_ref = rsegs.up_down.len() + rsegs.core.len();
+    let n_both = rsegs.up_down.iter().chain(rsegs.core.iter()).filter(|s| in_reg(s)).count();
+    if n_both == n_ref && held.len() == n_ref {
+        st.bump("registry-segments==reference-beaconing");
+    } else {
+        st.bump("registry-segments!=reference-beaconing(completeness judged on the common ones)");
+    }
+    let metric_base = (t.ases.len() * 100 + t.links.len()) * 10_000;
+    let n = t.ases.len();
+    for src in 0..n {
+        for dst in 0..n {
+            if src == dst {
+                continue;
+            }
+            st.pairs += 1;
+            // ---- completeness reference
+            let plan = rsegs.plan_sets(t, src, dst);
+            let ups: Vec<&refseg::RSegment> = plan.up.iter().map(|&i| &rsegs.up_down[i]).filter(|s| in_reg(s)).collect();
+            let cores: Vec<&refseg::RSegment> = plan.core.iter().chain(plan.core_rev.iter()).map(|&i| &rsegs.core[i]).filter(|s| in_reg(s)).collect();
+            let downs: Vec<&refseg::RSegment> = plan.down.iter().map(|&i| &rsegs.up_down[i]).filter(|s| in_reg(s)).collect();
+            let routes = refcombine::combine(t, src, dst, &ups, &cores, &downs);
+            for (vi, &(before, exp)) in cfg.variants.iter().enumerate() {
+                let valid_after = chrono::DateTime::<chrono::Utc>::from_timestamp(NOW - before, 0).unwrap();
+                let ts = (NOW - before) as u32;
+                let looked = vpc::catch(|| {
+                    if vi == 0 {
+                        // the real entry point (expiry unit 255, SegID 0) + the segments for diagnostics
+                        let p = reg.paths(bridge::ia_of(t, src), bridge::ia_of(t, dst), valid_after, &real).map_err(|e| format!("{e:#}"));
+                        let segs = lookup(&reg, &real, t, src, dst, valid_after, exp).map(|x| x.1).unwrap_or_default();
+                        p.map(|p| (p, segs))
+                    } else {
+                        lookup(&reg, &real, t, src, dst, valid_after, exp)
+                    }
+                });
+                let (paths, segs) = match looked {
+                    Ok(Ok(x)) => x,
+                    Ok(Err(e)) => {
+                        st.bump("lookup:error");
+                        if !routes.is_empty() {
+                            findings.report("no-path-offered-although-segments-join:lookup-error", metric_base, format!("path lookup AS{src}->AS{dst} fails ({e}) although {} route(s) can be joined from the registry's segments", routes.len()), &|| {
+                                json!({"topology": bridge::topo_to_json(t), "src": src, "dst": dst, "valid_after": NOW - before, "exp": exp, "error": e, "reference_routes": routes.keys().map(|h| format!("{h:?}")).collect::<Vec<_>>()})
+                            });
+                        }
+                        continue;
+                    }
+                    Err(p) => {
+                        findings.report(&format!("panic@{}", vpc::last_panic_location()), metric_base, format!("path lookup AS{src}->AS{dst} panicked: {p}"), &|| json!({"topology": bridge::topo_to_json(t), "src": src, "dst": dst}));
+                        continue;
+                    }
+                };
+                if paths.is_empty() {
+                    st.bump("lookup:no-path");
+                    if !routes.is_empty() {
+                        findings.report("no-path-offered-although-segments-join", metric_base, format!("path lookup AS{src}->AS{dst} returns no path although {} route(s) can be joined from the registry's segments", routes.len()), &|| {
+                            json!({"topology": bridge::topo_to_json(t), "src": src, "dst": dst, "valid_after": NOW - before, "exp": exp, "reference_routes": routes.keys().map(|h| format!("{h:?}")).collect::<Vec<_>>()})
+                        });
+                    } else {
+                        st.bump("completeness:no-route-and-no-path");
+                    }
+                    continue;
+                }
+                st.bump("lookup:paths-offered");
+                if routes.is_empty() {
+                    st.bump("completeness:paths-offered-where-reference-joins-none");
+                } else {
+                    st.bump("completeness:route-exists-and-paths-offered");
+                }
+                let chaining = peer_mac_chaining(t, &segs);
+                for (pi, p) in paths.iter().enumerate() {
+                    st.paths += 1;
+                    let wit = |extra: Value| json!({"topology": bridge::topo_to_json(t), "src": src, "dst": dst, "valid_after": NOW - before, "exp": exp, "path_index": pi, "detail": extra});
+                    let Some(ifs) = meta_ifs(t, p) else {
+                        findings.report("path-without-interface-metadata", metric_base, format!("path {pi} AS{src}->AS{dst} carries no usable interface list"), &|| wit(json!(null)));
+                        continue;
+                    };
+                    let bytes = match vpc::catch(|| wrap(t, p, src, dst)) {
+                        Ok(Ok(b)) => b,
+                        Ok(Err(e)) => {
+                            findings.report("path-cannot-be-put-into-a-packet", metric_base, format!("path {pi} AS{src}->AS{dst}: {e}"), &|| wit(json!(null)));
+                            continue;
+                        }
+                        Err(pn) => {
+                            findings.report(&format!("panic@{}", vpc::last_panic_location()), metric_base, format!("wrapping path panicked: {pn}"), &|| wit(json!(null)));
+                            continue;
+                        }
+                    };
+                    let info = PathInfo { ifs, bytes };
+                    // clocks
+                    let mut clocks = vec![ts];
+                    if cfg.two_clocks {
+                        if let Ok((h, _)) = RHeader::parse(&info.bytes) {
+                            if let RPath::Std(sp) = &h.path {
+                                let mut e = u64::MAX;
+                                for (hi, hop) in sp.hops.iter().enumerate() {
+                                    let its = sp.infos[sp.seg_of(hi).unwrap_or(0)].timestamp;
+                                    e = e.min(refrouter::last_valid_second(its, hop.exp_time));
+                                }
+                                clocks.push(e as u32 - 1);
+                            }
+                        }
+                    }
+                    for (ci, &now) in clocks.iter().enumerate() {
+                        let fwd = judge(t, src, dst, &info.bytes, now, &info.ifs, &mut st);
+                        let kind = if fwd.saw_peering {
+                            "peering"
+                        } else if fwd.saw_xover_noncore {
+                            "shortcut"
+                        } else {
+                            match fwd.segments {
+                                1 => "one-segment",
+                                2 => "two-segment",
+                                _ => "three-segment",
+                            }
+                        };
+                        if ci == 0 {
+                            st.bump(&format!("path-kind:{kind}"));
+                        }
+                        // the real simulator on the same packet (recorded; judged by C13)
+                        let (sim_ok, sim_desc) = sim_walk(&real, t, src, dst, &info.bytes, now);
+                        st.walks += 1;
+                        match (fwd.ok, sim_ok) {
+                            (true, true) => st.bump("forward:reference-delivers,simulator-delivers"),
+                            (true, false) => st.bump(&format!("forward:reference-delivers,simulator-refuses({kind})[C13]")),
+                            (false, true) => st.bump("forward:reference-refuses,simulator-delivers"),
+                            (false, false) => st.bump("forward:reference-refuses,simulator-refuses"),
+                        }
+                        if !fwd.ok {
+                            let mut class = fwd.fail.clone().unwrap();
+                            if class == "not-forwardable:bad-mac@peering-hop" && chaining.1 > 0 && chaining.0 == 0 {
+                                class = "peer-mac-chained-from-beta-i".into();
+                            }
+                            st.bump(&format!("forward-fail:{class}"));
+                            findings.report(&class, metric_base + info.bytes.len(), format!("offered path {pi} AS{src}->AS{dst} ({kind}) is not forwardable: {}", fwd.detail), &|| {
+                                wit(json!({"direction": "forward", "packet": vpc::hex(&info.bytes), "now": now, "metadata_interfaces": format!("{:?}", info.ifs), "trace": fwd.trace, "simulator": sim_desc,
+                                    "peer_entry_macs": {"verify_with_beta_i_plus_1(spec)": chaining.0, "verify_with_beta_i": chaining.1, "neither": chaining.2}}))
+                            });
+                            continue;
+                        }
+                        // ---- reverse
+                        let delivered = fwd.delivered_bytes.clone().unwrap();
+                        let rev = vpc::catch(|| -> Result<(ScionPath, Vec<u8>), String> {
+                            let (h, hl) = RHeader::parse(&delivered).map_err(|e| format!("delivered packet unparsable: {e}"))?;
+                            let po = 12 + 16 + h.dst_host.len() + h.src_host.len();
+                            let pb: Box<[u8]> = delivered[po..hl].to_vec().into_boxed_slice();
+                            let view = StandardPathView::try_from_boxed(pb).map_err(|e| format!("delivered path is not a standard path view: {e:?}"))?;
+                            let mut sp = ScionPath::new(bridge::ia_of(t, src), bridge::ia_of(t, dst), ScionDpPathView::Standard(view), p.metadata().cloned(), None);
+                            sp.try_reverse().map_err(|e| format!("try_reverse: {e:?}"))?;
+                            let b = wrap(t, &sp, dst, src)?;
+                            Ok((sp, b))
+                        });
+                        let (rp, rbytes) = match rev {
+                            Ok(Ok(x)) => x,
+                            Ok(Err(e)) => {
+                                st.bump("reverse-fail:cannot-reverse");
+                                findings.report("reverse:path-cannot-be-reversed", metric_base + info.bytes.len(), format!("delivered path {pi} AS{src}->AS{dst} cannot be reversed: {e}"), &|| wit(json!({"packet": vpc::hex(&info.bytes), "delivered": vpc::hex(&delivered), "now": now})));
+                                continue;
+                            }
+                            Err(pn) => {
+                                findings.report(&format!("panic@{}", vpc::last_panic_location()), metric_base, format!("reversing the delivered path panicked: {pn}"), &|| wit(json!({"packet": vpc::hex(&info.bytes), "delivered": vpc::hex(&delivered)})));
+                                continue;
+                            }
+                        };
+                        let rifs: Vec<(AsIdx, u16)> = match meta_ifs(t, &rp) {
+                            Some(v) => v,
+                            None => info.ifs.iter().rev().cloned().collect(),
+                        };
+                        let expect_rifs: Vec<(AsIdx, u16)> = info.ifs.iter().rev().cloned().collect();
+                        if rifs != expect_rifs {
+                            findings.report("reverse:metadata-interfaces-not-mirrored", metric_base + info.bytes.len(), format!("reversed path lists {rifs:?}, the forward path mirrored is {expect_rifs:?}"), &|| wit(json!({"packet": vpc::hex(&info.bytes)})));
+                        }
+                        let back = judge(t, dst, src, &rbytes, now, &expect_rifs, &mut st);
+                        let (rsim_ok, rsim_desc) = sim_walk(&real, t, dst, src, &rbytes, now);
+                        st.walks += 1;
+                        match (back.ok, rsim_ok) {
+                            (true, true) => st.bump("reverse:reference-delivers,simulator-delivers"),
+                            (true, false) => st.bump(&format!("reverse:reference-delivers,simulator-refuses({kind})[C13]")),
+                            (false, true) => st.bump("reverse:reference-refuses,simulator-delivers"),
+                            (false, false) => st.bump("reverse:reference-refuses,simulator-refuses"),
+                        }
+                        if !back.ok {
+                            let class = format!("reverse:{}", back.fail.clone().unwrap());
+                            st.bump(&format!("reverse-fail:{class}"));
+                            findings.report(&class, metric_base + info.bytes.len(), format!("reply over the reversed path {pi} AS{dst}->AS{src} ({kind}) is not forwardable: {}", back.detail), &|| {
+                                wit(json!({"direction": "reverse", "forward_packet": vpc::hex(&info.bytes), "delivered": vpc::hex(&delivered), "reply_packet": vpc::hex(&rbytes), "now": now, "trace": back.trace, "simulator": rsim_desc}))
+                            });
+                        }
+                    }
+                }
+            }
+        }
+    }
+    let _ = run;
+    st
+}
+
+pub fn run(args: &vpc::Args) -> ! {
+    vpc::quiet_panics();
+    if let Some(f) = &args.replay {
+        replay(args, f);
+    }
+    let run = vpc::Run::new(args);
+    let thorough = run.tier == vpc::Tier::Thorough;
+    // (topologies, config)
+    let mut jobs: Vec<(Topo, bool)> = vec![]; // bool = small (n<=3): all variants and both clocks
+    for n in 1..=3 {
+        jobs.extend(reftopo_enum::enumerate(n, 2).into_iter().map(|t| (t, true)));
+    }
+    let n_small = jobs.len();
+    let mut bound = String::from("all R-topo shapes n<=3 (core-link multiplicity<=2, both interface numberings)");
+    if thorough {
+        jobs.extend(reftopo_enum::enumerate(4, 2).into_iter().map(|t| (t, false)));
+        bound.push_str(" + all n=4 (multiplicity<=2)");
+        jobs.extend(reftopo_enum::enumerate(5, 1).into_iter().map(|t| (t, false)));
+        bound.push_str(" + all n=5 (multiplicity 1)");
+    }
+    let n_enum = jobs.len();
+    jobs.extend(reftopo_enum::curated().into_iter().map(|t| (t, false)));
+    if let Ok(only) = std::env::var("VP_ONLY") {
+        jobs.retain(|(t, _)| t.name.contains(&only));
+    }
+    let small_cfg = Cfg { variants: vec![(0, 255), (337, 255), (0, 63), (337, 63), (0, 0), (337, 0)], two_clocks: true };
+    let big_cfg = Cfg { variants: vec![(0, 255)], two_clocks: false };
+    let findings = Findings::default();
+    let total = Mutex::new(Stats::default());
+    let t_build = std::time::Instant::now();
+    jobs.par_iter().for_each(|(t, small)| {
+        let st = check_topology(&run, &findings, t, if *small { &small_cfg } else { &big_cfg });
+        total.lock().unwrap().merge(st);
+    });
+    let _ = t_build;
+    let st = total.into_inner().unwrap();
+    for (k, v) in &st.outcomes {
+        run.outcome_n(k, *v);
+    }
+    findings.flush(&run);
+    let kinds = |k: &str| st.outcomes.get(&format!("path-kind:{k}")).copied().unwrap_or(0);
+    if std::env::var("VP_ONLY").is_err() && (kinds("shortcut") == 0 || kinds("peering") == 0 || kinds("three-segment") == 0) {
+        vpc::machinery_failure(&format!("vacuous: shortcut={} peering={} three-segment={}", kinds("shortcut"), kinds("peering"), kinds("three-segment")));
+    }
+    run.sample(1, || json!({"topologies": jobs.len(), "pairs": st.pairs, "paths": st.paths}));
+    let bound = format!(
+        "{} topologies: {bound} = {} enumerated + {} curated (incl. the repository's 16-AS default graph); every ordered AS pair ({}); every returned path ({}) forward and reversed; n<=3: valid_after in {{now, now-337s}} x hop expiry units {{255,63,0}} x walk clock {{timestamp, expiry-1}}, larger: valid_after=now, unit 255, clock=timestamp",
+        jobs.len(),
+        n_enum,
+        jobs.len().saturating_sub(n_enum),
+        st.pairs,
+        st.paths
+    );
+    let _ = n_small;
+    run.finish(
+        "model_checking",
+        json!({
+            "states": st.states,
+            "transitions": st.transitions,
+            "traces_validated_against_impl": st.walks,
+            "exhaustive": true,
+            "bound": bound,
+            "topologies": jobs.len(),
+            "ordered_pairs": st.pairs,
+            "paths_walked": st.paths,
+        }),
+        &[
+            "the judge is R-router (vpc::refrouter), written from draft-dekater-scion-dataplane / scionproto router semantics; hop MACs are verified with R-mac and the per-AS key given to the real topology",
+            "a reply is sent over ScionPath::try_reverse of the path as it arrived at the destination (SegIDs as accumulated, pointers at the last hop), which is how a SCION endpoint answers",
+            "completeness is judged against R-combine over the R-seg segments that the real registry holds as well (walk-by-walk comparison of the registry's link segments)",
+            "a disagreement between the real simulator and R-router on a path R-router accepts is counted ([C13]) but attributed to C13",
+        ],
+    )
+}
+
+fn replay(args: &vpc::Args, f: &std::path::Path) -> ! {
+    let v = vpc::read_replay(f);
+    let w = &v["witness"];
+    let t = bridge::topo_from_json(&w["topology"]).unwrap_or_else(|e| vpc::machinery_failure(&format!("replay topology: {e}")));
+    let (src, dst) = (w["src"].as_u64().unwrap_or(0) as usize, w["dst"].as_u64().unwrap_or(0) as usize);
+    let before = NOW - w["valid_after"].as_i64().unwrap_or(NOW);
+    let exp = w["exp"].as_u64().unwrap_or(255) as u8;
+    println!("REPLAY {} class={}\n  topology {} ({} ASes, {} links); lookup AS{src} ({}) -> AS{dst} ({}), valid_after now-{before}s, hop expiry unit {exp}", f.display(), v["class"], t.name, t.ases.len(), t.links.len(), ia_str(&t, src), ia_str(&t, dst));
+    for l in &t.links {
+        println!("  link AS{}#{} -- AS{}#{} {:?}", l.a, l.a_if, l.b, l.b_if, l.kind);
+    }
+    unsafe { std::env::set_var("VERIF_ROOT", "/root/scratch/c01-replay-out") };
+    let a2 = vpc::Args { prop: args.prop.clone(), tier: args.tier, seed: args.seed, replay: None, extra: vec![] };
+    let run = vpc::Run::new(&a2);
+    let findings = Findings::default();
+    // re-run the lookup for this pair only, on the same topology, and print every walk
+    let mut only = t.clone();
+    only.name = format!("{}(replay)", t.name);
+    let cfg = Cfg { variants: vec![(before, exp)], two_clocks: true };
+    let st = check_topology(&run, &findings, &only, &cfg);
+    for (k, n) in &st.outcomes {
+        println!("  {n:>6} {k}");
+    }
+    let m = findings.0.lock().unwrap();
+    for (class, (_, n, what, wit)) in m.iter() {
+        println!("  FINDING [{class}] x{n}: {what}");
+        if let Some(tr) = wit["detail"]["trace"].as_array() {
+            for s in tr {
+                println!("      {}", s.as_str().unwrap_or(""));
+            }
+        }
+    }
+    let hit = m.contains_key(v["class"].as_str().unwrap_or(""));
+    println!("REPLAY-RESULT classes={} original-class-reproduced={hit}", m.len());
+    let _ = std::fs::remove_dir_all("/root/scratch/c01-replay-out");
+    std::process::exit(if m.is_empty() { 0 } else { 1 })
+}
+
+#[allow(dead_code)]
+fn _unused(_: RejectClass) {}
